@@ -85,6 +85,7 @@ func cmdCheck(args []string) int {
 	repo := fs.String("repo", "/repo", "repository")
 	verif := fs.String("verif", "/verif", "verif dir")
 	only := fs.String("func", "", "only functions whose display name contains this")
+	outDir := fs.String("out", "", "directory for evidence/ and replay/ (default: the verif dir)")
 	keep := fs.Bool("keep", false, "keep discharged queries")
 	verbose := fs.Bool("v", false, "verbose")
 	fs.Parse(args)
@@ -96,7 +97,12 @@ func cmdCheck(args []string) int {
 		seed, _ = strconv.Atoi(s)
 	}
 	start := time.Now()
-	p, err := LoadProgram(*repo, filepath.Join(*verif, "specs"))
+	specDir := filepath.Join(*verif, "specs")
+	knownPath := filepath.Join(*verif, "known_findings.txt")
+	if *outDir != "" {
+		*verif = *outDir
+	}
+	p, err := LoadProgram(*repo, specDir)
 	if err != nil {
 		fmt.Fprintf(os.Stderr, "gocv: cannot load /repo with tag verif: %v\n", err)
 		// a tree that does not load is reported as a failed binding obligation
@@ -195,7 +201,7 @@ func cmdCheck(args []string) int {
 	}
 	solveS := time.Since(solveStart).Seconds()
 
-	known, fixed := loadKnown(filepath.Join(*verif, "known_findings.txt"))
+	known, fixed := loadKnown(knownPath)
 	_ = fixed
 	discharged := 0
 	violations := 0
